@@ -195,10 +195,18 @@ Proof.
   all: lazymatch type of H with
        | context [crot_branch] =>
            destruct (crot_branch th) as [j|]; [|discriminate]; injection H as <-;
-           split; [cbn [sop_check]; first [apply crx_check | apply cry_check | apply crz_check] | reflexivity]
+           split; [cbn [sop_check]; lazymatch goal with
+                   | |- L2b (of_mat2 (M_CRX _)) _ = true => apply crx_check
+                   | |- L2b (of_mat2 (M_CRY _)) _ = true => apply cry_check
+                   | |- L2b (of_mat2 (M_CRZ _)) _ = true => apply crz_check
+                   end | reflexivity]
        | context [rot_branch] =>
            injection H as <-;
-           split; [cbn [sop_check]; first [apply rx_check | apply ry_check | apply rz_check] | reflexivity]
+           split; [cbn [sop_check]; lazymatch goal with
+                   | |- L1b (of_mat1 (M_RX _)) _ = true => apply rx_check
+                   | |- L1b (of_mat1 (M_RY _)) _ = true => apply ry_check
+                   | |- L1b (of_mat1 (M_RZ _)) _ = true => apply rz_check
+                   end | reflexivity]
        | _ => injection H as <-; split; [vm_compute; reflexivity | reflexivity]
        end.
 Qed.
